@@ -150,6 +150,53 @@ fn check_instant(ctx: &mut Ctx, tz: Tz, secs: i64, digits: u32, tag: &str) {
     expect(ctx, "hayson-text", "serde_json::from_str", catch(|| dt_of(serde_json::from_str::<Value>(&doc).map_err(|e| e.to_string()))), &want, false, &doc);
     let j = catch(|| serde_json::to_string(&lib_val).map_err(|e| e.to_string()).and_then(|t| dt_of(serde_json::from_str::<Value>(&t).map_err(|e| format!("{e} (doc {t})")))));
     expect(ctx, "hayson-roundtrip", "Hayson encode->decode", j, &want, false, &doc);
+    // A': the instant written at a third offset (neither the zone's nor UTC) lands on the same instant in the zone
+    let third_off = [5 * 3600 + 45 * 60, -(3 * 3600 + 30 * 60), 14 * 3600, -12 * 3600, 3600, -9 * 3600][(secs.unsigned_abs() % 6) as usize];
+    let third_text = rfc3339(secs, nanos, third_off, digits, true);
+    expect(ctx, "rfc3339third+city", "parse_from_rfc3339_with_timezone", catch(|| DateTime::parse_from_rfc3339_with_timezone(&third_text, &short)), &want, false, &format!("{third_text} {short}"));
+    // B'/C': the same timestamp as an element of a list, a tag of a dict and a cell of a grid (followed by ',' / ' ' / newline)
+    {
+        let first_dt = |v: Result<Value, String>| -> Result<DateTime, String> {
+            let v = v?;
+            let pick = |d: &libhaystack::val::Dict| -> Result<DateTime, String> {
+                match (d.get("a"), d.get("b")) {
+                    (Some(Value::DateTime(a)), Some(Value::DateTime(b))) if observe_datetime(a) == observe_datetime(b) => Ok(*a),
+                    other => Err(format!("tags a/b are {other:?}")),
+                }
+            };
+            match &v {
+                Value::List(l) => match (l.first(), l.get(1), l.len()) {
+                    (Some(Value::DateTime(a)), Some(Value::DateTime(b)), 2) if observe_datetime(a) == observe_datetime(b) => Ok(*a),
+                    _ => Err(format!("list decoded to {}", crate::ctx::truncate(&format!("{v:?}"), 200))),
+                },
+                Value::Dict(d) => pick(d),
+                Value::Grid(g) => match g.rows.first() {
+                    Some(r) if g.rows.len() == 1 => pick(r),
+                    _ => Err(format!("grid has {} rows", g.rows.len())),
+                },
+                other => Err(format!("decoded to a {:?}", libhaystack::val::kind::HaystackKind::from(other))),
+            }
+        };
+        let which = (secs.unsigned_abs() / 7) % 3;
+        let ctext = match which {
+            0 => format!("[{ztext},{ztext}]"),
+            1 => format!("{{a:{ztext},b:{ztext}}}"),
+            _ => format!("ver:\"3.0\"\na,b\n{ztext},{ztext}\n"),
+        };
+        expect(ctx, "zinc-text-in-container", "zinc::from_str", catch(|| first_dt(from_str(&ctext).map_err(|e| e.to_string()))), &want, false, &ctext);
+        let mut d = libhaystack::val::Dict::new();
+        d.insert("a".into(), lib_val.clone());
+        d.insert("b".into(), lib_val.clone());
+        let cval = match which {
+            0 => Value::make_list(vec![lib_val.clone(), lib_val.clone()]),
+            1 => Value::make_dict(d),
+            _ => Value::make_grid_from_dicts(vec![d]),
+        };
+        let z = catch(|| to_zinc_string(&cval).map_err(|e| e.to_string()).and_then(|t| first_dt(from_str(&t).map_err(|e| format!("{e} (text {t})")))));
+        expect(ctx, "zinc-roundtrip-in-container", "Zinc encode->decode", z, &want, false, &ctext);
+        let j = catch(|| serde_json::to_string(&cval).map_err(|e| e.to_string()).and_then(|t| first_dt(serde_json::from_str::<Value>(&t).map_err(|e| format!("{e} (doc {t})")))));
+        expect(ctx, "hayson-roundtrip-in-container", "Hayson encode->decode", j, &want, false, &ctext);
+    }
     // E: the C API: an instant (UTC date + time) and a zone name -> that instant in that zone; getters give it back
     capi_instant(ctx, tz, secs, nanos, &want, &short);
     // D: zone-less constructors: Err or exactly the instant (zone/offset of the result are not prescribed)
